@@ -15,6 +15,7 @@ import ast
 import os
 
 from .. import translate
+from . import normalize
 
 ENGINES = (
     ("torch", "fairlearn/adversarial/_pytorch_engine.py", "PytorchEngine"),
@@ -137,7 +138,7 @@ def _arith(node, env):
 
 def _find_loop(repo, rel, cls):
     with open(os.path.join(repo, rel)) as f:
-        tree = ast.parse(f.read())
+        tree = normalize.parse(f.read())
     for c in tree.body:
         if isinstance(c, ast.ClassDef) and c.name == cls:
             for fn in c.body:
